@@ -190,6 +190,33 @@ def independence(rec, c, model, p, obj, k, got):
             rec.fail(dict(c, point={'k': float(k[i])}), '%s%r: omega(k=%r) is %r inside the array but %r when evaluated alone' % (model, p, float(k[i]), a, one),
                      tags(model, 'independence', 'K3' if k3[i] else None), repro=repro(model, p, float(k[i])))
             return
+    # the array handed out for one k grid is the caller's: evaluating another grid of the same length (reversed and
+    # stretched) must not change it, and the whole reversed grid gives the reversed values
+    try:
+        with np.errstate(all='ignore'):
+            first = obj.calculate(k.copy())
+            snap = np.array(first, dtype=float, copy=True)
+            k2 = (k[::-1] * 1.25).copy()
+            second = obj.calculate(k2)
+            rev = np.asarray(obj.calculate(k[::-1].copy()), dtype=float)
+        rec.trans(3)
+        if np.ndim(first) and not np.array_equal(np.asarray(first, dtype=float), snap, equal_nan=True):
+            rec.fail(c, '%s%r: the array returned for one k grid changed when calculate() was called with another grid of the same length' % (model, p),
+                     tags(model, 'purity'))
+            return
+        if np.ndim(rev) and rev.shape == got.shape:
+            lim = 8 * EPS * np.maximum(np.abs(got), 1.0) + np.where(np.isfinite(cancel), cancel, np.inf)
+            if model in ('NFJC', 'NFJCalias'):
+                lim = np.full(got.shape, 1e-9)
+            bad = ~((rev[::-1] == got) | (np.isnan(rev[::-1]) & np.isnan(got)) | (np.abs(rev[::-1] - got) <= lim))
+            if np.any(bad):
+                i = int(np.argmax(bad))
+                rec.fail(dict(c, point={'k': float(k[i])}), '%s%r: omega(k=%r) is %r on the increasing grid but %r when the same grid is passed in decreasing order'
+                         % (model, p, float(k[i]), float(got[i]), float(rev[::-1][i])), tags(model, 'independence', 'K3' if k3[i] else None))
+                return
+    except Exception as e:
+        rec.fail(c, '%s%r: calculate on a reversed / rescaled copy of the grid raised %s: %s' % (model, p, type(e).__name__, str(e)[:80]), tags(model, 'raises'))
+        return
     sub = np.array([k[i] for i in idx[::-1]])
     back = np.asarray(obj.calculate(sub), dtype=float)
     rec.trans()
